@@ -31,8 +31,9 @@ theorem fragment_run {res : Rat} {nch : Nat} {prog : List Node} (h : inFragment 
   simp only [inFragment, Bool.and_eq_true, Bool.not_eq_true'] at h
   obtain ⟨⟨⟨hn, hw⟩, hk⟩, hs⟩ := h
   have glob := global_of_fragment (nch := nch) hk hs
-  obtain ⟨s, c', hok, hex⟩ := mainL glob prog (TS.init res) hn (by simpa [TS.init] using hw) rfl
+  obtain ⟨s, c', hok, hex⟩ := mainL glob prog (TS.init res) Sweep.init (by simpa [TS.init] using hw) rfl
     (fun _ hp => hp) (fun _ hp => hp) (by intro p _; simp [TS.init])
+    ⟨rfl, fun _ => rfl, fun _ _ => rfl, fun _ => rfl⟩ (by simpa [inPF22] using hn)
   refine ⟨flat s, by rw [translate_eq, hok], ?_⟩
   have hl := (trSL_labels prog _ _ _ hok).2.1
   obtain ⟨fuel0, hrun⟩ := run_flat s hl nch
